@@ -13,6 +13,7 @@ M3  accept/reject results and lookup replies are validated by TLC against PDRout
 import json, os, sys, re, subprocess
 sys.path.insert(0, os.path.join(os.path.dirname(os.path.abspath(__file__)), "..", "lib"))
 from vlib import *
+from vpar import validate_traces_parallel
 
 INF = 100
 # two order-preserving maps from model positions 0..7 to byte strings (0 = empty key)
@@ -151,7 +152,7 @@ def run(ctx):
     order = sorted(traces)
     tl = [project(traces[s], kms[s]) for s in order]
     # ---------------------------------------------------------------- M3
-    rejected = ctx.validate_traces("PDRoutePropTrace", "PDRoutePropTrace.cfg", tl, family="PD", timeout=1500)
+    rejected = validate_traces_parallel(ctx, "PDRoutePropTrace", "PDRoutePropTrace.cfg", tl, family="PD", timeout=1500)
     nevents = sum(len(t) for t in tl)
     ctx.log("M3: %d traces / %d events validated, %d contradicting events" % (len(tl), nevents, len(rejected)))
     known = {f["id"]: f for f in ctx.load_known()}
